@@ -901,7 +901,10 @@ class Exec:
         if isinstance(op, (ast.In, ast.NotIn)):
             if isinstance(r, (VSet, VList, VTuple)):
                 its = self.items(r, st)
-                c = z3.Or(*[self.eq(l, x, st) for x in its]) if its else z3.BoolVal(False)
+                if isinstance(r, VSet) and r.conds is not None:
+                    c = z3.Or(*[z3.And(self.eq(l, x, st), r.conds[j]) for j, x in enumerate(its)]) if its else z3.BoolVal(False)
+                else:
+                    c = z3.Or(*[self.eq(l, x, st) for x in its]) if its else z3.BoolVal(False)
             elif isinstance(r, VDict):
                 c = z3.Or(*[self.eq(l, k, st) for k, _ in r.pairs]) if r.pairs else z3.BoolVal(False)
             elif isinstance(r, VObj):
@@ -981,7 +984,28 @@ class Exec:
                 out += self.binop(n.op, vs[0], vs[1], s, n)
         return out
 
+    def metaclass_of(self, qual):
+        """metaclass of a repo class created as `Base = Meta('Base', ...)` at module level (pgpy.types.FlagEnum), else None"""
+        for q in self.repo.mro(qual):
+            ci = self.repo.classes.get(q)
+            if ci is None:
+                continue
+            for b in ci.node.bases:
+                if isinstance(b, ast.Name):
+                    for mod in (ci.module, 'pgpy.types'):
+                        g = self.repo.globals.get(mod, {}).get(b.id)
+                        if isinstance(g, ast.Call) and isinstance(g.func, ast.Name):
+                            mq = self.repo.resolve_name(mod, g.func.id)
+                            if isinstance(mq, str) and mq in self.repo.classes:
+                                return mq
+        return None
+
     def binop(self, op, l, r, st, n):
+        if isinstance(l, VClass) and isinstance(op, ast.BitAnd):
+            mq = self.metaclass_of(l.qual)
+            if mq is not None and '__and__' in self.repo.classes[mq].methods:
+                f = VFunc(self.repo.classes[mq].methods['__and__'], None, cls=mq, self_val=l, mod=self.repo.classes[mq].module)
+                return self.call(f, [r], {}, st, {'mod': self.repo.classes[mq].module}, n, None)
         if isinstance(l, (VBytes, VBuf)) and isinstance(r, (VBytes, VBuf)) and isinstance(op, ast.Add):
             z = z3.Concat(self.seq(l, st), self.seq(r, st))
             return [(st, self.new_buf(st, z) if isinstance(l, VBuf) else VBytes(z))]
@@ -992,6 +1016,20 @@ class Exec:
         if isinstance(l, VSet) and isinstance(r, VSet) and isinstance(op, (ast.BitOr, ast.BitAnd, ast.Sub)):
             if isinstance(op, ast.BitOr) and l.conds is None and r.conds is None:
                 return [(st, VSet(l.items + r.items))]
+            if isinstance(op, ast.BitOr):
+                T = z3.BoolVal(True)
+                items, conds = l.items + r.items, list(l.conds or [T] * len(l.items)) + list(r.conds or [T] * len(r.items))
+                # a set holds each value once: members with the same concrete value are merged (their conditions or-ed)
+                keys = [x.conc() if isinstance(x, VInt) else None for x in items]
+                if any(k is None for k in keys):
+                    raise ToolLimit('union of sets with symbolic membership over non-concrete members')
+                merged = {}
+                for k, x, c in zip(keys, items, conds):
+                    if k in merged:
+                        merged[k] = (merged[k][0], z3.Or(merged[k][1], c))
+                    else:
+                        merged[k] = (x, c)
+                return [(st, VSet([x for x, _ in merged.values()], [c for _, c in merged.values()]))]
             if isinstance(op, ast.BitAnd):
                 conds = []
                 for i, a in enumerate(l.items):
@@ -1137,6 +1175,10 @@ class Exec:
         X = self.seq(l, st)
         k = r.z
         ck = VInt(k).conc()
+        if ck is None and self.spec_depth == 0:
+            u = self.concretize(st, k, 1)          # the count may be determined by the path condition (unique value)
+            if u is not None and len(u) == 1:
+                ck = u[0]
         if ck is not None and ck <= 64:
             z = z3.Empty(BYTES) if ck <= 0 else (X if ck == 1 else z3.Concat(*([X] * ck)))
             return [(st, VBytes(z))]
@@ -1895,6 +1937,8 @@ class Exec:
                 t = SUMOCT(self.seq(A[0], st))
                 st.facts.append(t >= 0)
                 return [(st, VInt(t))]
+            if name == 'sum' and isinstance(A[0], VSet) and A[0].conds is not None:
+                return [(st, VInt(zsum([z3.If(c, self.as_int(x), 0) for x, c in zip(A[0].items, A[0].conds)])))]
             if name == 'sum':
                 its = self.iter_items(A[0], st)
                 return [(st, VInt(zsum([self.as_int(x) for x in its])))]
@@ -2191,6 +2235,34 @@ class Exec:
             res.append((s2, VInt(val)))
         return res
 
+    def ev_SetComp(self, n, env, st, ctx):
+        """{elt for x in <unrollable> if <fork-free condition>}: a set with symbolic membership (no path split per member)"""
+        if len(n.generators) != 1:
+            raise ToolLimit('set comprehension with several generators')
+        g = n.generators[0]
+        out = []
+        for s0, it in self.ev(g.iter, env, st, ctx):
+            if isinstance(it, Raise):
+                out.append((s0, it))
+                continue
+            items, conds = [], []
+            for item in self.iter_items(it, s0):
+                e2 = s0.new_env(env)
+                self.assign_target(g.target, item, e2, s0, ctx)
+                c = z3.BoolVal(True)
+                for cnd in g.ifs:
+                    r = self.ev(cnd, e2, s0, ctx)
+                    if len(r) != 1 or isinstance(r[0][1], Raise) or r[0][0] is not s0:
+                        raise ToolLimit('set comprehension filter that forks or raises')
+                    c = z3.And(c, self.truth(r[0][1], s0))
+                r = self.ev(n.elt, e2, s0, ctx)
+                if len(r) != 1 or isinstance(r[0][1], Raise) or r[0][0] is not s0:
+                    raise ToolLimit('set comprehension element that forks or raises')
+                items.append(r[0][1])
+                conds.append(z3.simplify(c))
+            out.append((s0, VSet(items, conds if g.ifs else None)))
+        return out
+
     def ev_GeneratorExp(self, n, env, st, ctx):
         return self.comprehension(n, env, st, ctx)
 
@@ -2247,8 +2319,18 @@ class Exec:
         return [(s1, acc if isinstance(acc, Raise) else self.new_list(s1, acc)) for s1, acc in go(0, env, st)]
 
     def iter_items(self, it, st):
+        if isinstance(it, VSet) and it.conds is not None:
+            raise ToolLimit('iteration over a set with symbolic membership')
         if isinstance(it, (VList, VTuple, VSet)):
             return self.items(it, st)
+        if isinstance(it, VClass) and self.repo.is_enum(it.qual):
+            mem = self.repo.enum_members(it.qual)          # definition order (dict order of the class body)
+            seen, out = set(), []
+            for k, v in mem.items():
+                if isinstance(v, int) and v not in seen:    # aliases are not iterated
+                    seen.add(v)
+                    out.append(VInt(v, enum=it.qual))
+            return out
         if isinstance(it, VObj):
             outs = None
             for s2, m in self.getattr(it, '__iter__', st, {'mod': 'pgpy'}):
@@ -2594,6 +2676,13 @@ class Exec:
                     raise ToolLimit('for/else over an abstract sequence')
                 out += self.for_invariant(n, it, env, s, ctx)
                 continue
+            if isinstance(it, VRange) and getattr(it, 'step', 1) == 1:
+                spec = self.loop_spec(ctx, n)
+                if spec is not None:
+                    if n.orelse:
+                        raise ToolLimit('for/else with a loop contract')
+                    out += self.range_invariant(n, it, env, s, ctx, spec)
+                    continue
             items = self.iter_items(it, s)
             outs = [(s, Next())]
             for item in items:
@@ -2773,6 +2862,33 @@ class Exec:
             for s2, t in self.fork(s1, self.truth(cond, s1)):
                 if not t:
                     out.append((s2, Next()))
+        return out
+
+    def range_invariant(self, n, rng, env, st, ctx, spec):
+        """`for i in range(lo, hi)` with symbolic bounds under an inductive loop contract:
+        spec['inv'](ex, st, env, i) must hold for i = lo on entry, is assumed for an arbitrary lo <= i < hi after havoc and must hold
+        for i + 1 after the body; after the loop it is assumed for i = max(lo, hi).  (Python evaluates range() once: lo, hi are entry values.)"""
+        tag = spec.get('name', 'L%d' % n.lineno)
+        lo, hi = self.as_int(rng.lo), self.as_int(rng.hi)
+        out = []
+        self.oblige(st, 'inv-init[%s]' % tag, spec['inv'](self, st, env, lo), n.lineno)
+        body = st.clone()
+        spec['havoc'](self, body, env)
+        i = fresh('i')
+        body.pc += [i >= lo, i < hi, spec['inv'](self, body, env, i)]
+        if self.feasible(body, z3.BoolVal(True)):
+            self.assign_target(n.target, VInt(i), env, body, ctx)
+            for s3, c3 in self.block(n.body, env, body, ctx):
+                if isinstance(c3, (Next, Cont)):
+                    self.oblige(s3, 'inv-preserve[%s]' % tag, spec['inv'](self, s3, env, i + 1), n.lineno)
+                elif isinstance(c3, Brk):
+                    out.append((s3, Next()))
+                else:
+                    out.append((s3, c3))
+        after = st.clone()
+        spec['havoc'](self, after, env)
+        after.pc.append(spec['inv'](self, after, env, z3.If(hi > lo, hi, lo)))
+        out.append((after, Next()))
         return out
 
     # ---- loops over abstract sequences: inductive invariants
